@@ -90,6 +90,7 @@ class Run(RunBase):
         self.N, self.NGF = world["N"], world["NGF"]
         self.maxN = max(world["ranges"])
         self.pool = Pool(self.wd.reference(self.maxN, world["grids"][0]), world["pool_seed"], len(self.wd.sitelist))
+        self.ctor_args = None
         self.disk = {}           # slot -> {"file": SimFile or bytes, "groups": [(name, N, NGF, gen)]}
         self.open_files = []
         self.gen = 0
@@ -99,7 +100,8 @@ class Run(RunBase):
             crys = CRYSTALS[world["crystal"]][0]()
             self.decoy_on(crys, world["pool_seed"])
             chem = self.wd.chem
-            self.calc = OnsagerCalc.VacancyMediated(crys, chem, crys.sitelist(chem), crys.jumpnetwork(chem, self.wd.cut),
+            self.ctor_args = (crys.sitelist(chem), crys.jumpnetwork(chem, self.wd.cut))
+            self.calc = OnsagerCalc.VacancyMediated(crys, chem, self.ctor_args[0], self.ctor_args[1],
                                                     self.N, NGFmax=self.NGF)
             self.faults["calculator-on-used-crystal-object"] += 1
         elif world["birth"] == "ctor":
